@@ -9,15 +9,15 @@
 CONSTANTS
   IPs = {"a"}
   Procs = @@PROCS@@
-  Threshold = 2
+  Threshold = @@THR@@
   PermAt = @@PERMAT@@
-  Win = 2
+  Win = @@WIN@@
   Ban = @@BAN@@
   BlDur = 2
   Burst = 2
   Refill = 500
   MaxClock = @@MAXCLOCK@@
-  MaxTotal = 4
+  MaxTotal = @@MAXTOTAL@@
   MaxPend = 2
   MaxAdm = 4
   Acts = @@ACTS@@
